@@ -157,6 +157,15 @@ theorem lost_update_read_first (gc : Guard.Cfg) (ris : Bool) :
       (fun s => (s.val, s.log.length)) = some (1, 2) := by
   cases gc with | mk r => cases r <;> cases ris <;> decide
 
+/-- the conditional Set (`Overwrite = false`: write only when the key is absent, 0 = absent; call `t` writes `t`):
+    both calls test before the guard, both see "absent", both write and both answer "written" -/
+def setIfAbsent : Nat → Int → Int := fun t v => if v = 0 then (t : Int) else v
+
+theorem set_if_absent_both_write (gc : Guard.Cfg) (ris : Bool) :
+    (Lin.run { guard := gc, releaseInSave := ris, shape := .readBeforeAcquire } setIfAbsent (Lin.init 0) witnessReadFirst).map
+      (fun s => (s.val, s.log.map (fun e => (e.tid, e.resp)), replay setIfAbsent 0 s.log)) = some (2, [(1, 1), (2, 2)], none) := by
+  cases gc with | mk r => cases r <;> cases ris <;> decide
+
 def witnessWriteLate : List Lin.Act := ths [1, 1, 1, 2, 2, 2, 1, 2]
 
 theorem lost_update_write_late (gc : Guard.Cfg) (ris : Bool) :
@@ -218,6 +227,11 @@ theorem perm_pair {α : Type} (l : List α) (a b : α) (h : l.Perm [a, b]) : l =
     · simp
     · simp
     · rcases ha with rfl | rfl <;> simp
+
+/-- … and no serial order explains two "written" answers: whoever comes second finds the key present -/
+theorem set_if_absent_no_order (e1 e2 : Entry) (h1 : e1.tid = 1 ∧ e1.resp = 1) (h2 : e2.tid = 2 ∧ e2.resp = 2)
+    (order : List Entry) (hp : order.Perm [e1, e2]) : replay setIfAbsent 0 order = none := by
+  rcases perm_pair order e1 e2 hp with rfl | rfl <;> simp [replay, setIfAbsent, h1.1, h1.2, h2.1, h2.2]
 
 /-- Neither serial order explains the acknowledged delete, the response 6 and the final value 6. -/
 theorem stale_object_not_linearizable (s : Stale.St)
@@ -281,6 +295,10 @@ structure Facts where
   bodyShape : ShapeFact
   createSingleFlight : Tri
   rechecksObjectUnderGuard : Tri
+  /-- gateway `Set`: the existence tests behind `Overwrite = false` / `CreateIfNotExist = false` are (also) made
+      after `StartTreasureGuard`; `no`: the decision to write is taken from a test made before the guard, i.e. the
+      conditional Sets are bodies of shape `readBeforeAcquire` -/
+  setTestsExistenceUnderGuard : Tri
   deriving Repr
 
 def shapeOf : ShapeFact → Shape
@@ -291,7 +309,7 @@ def shapeOf : ShapeFact → Shape
 def cfgOf (f : Facts) : Cfg :=
   { guard := { resetsIdOnEmpty := f.resetsIdOnEmpty.isYes },
     releasesWhenImmediate := !f.releasesGuardWhenImmediate.isNo,
-    shape := shapeOf f.bodyShape,
+    shape := if f.setTestsExistenceUnderGuard.isNo then .readBeforeAcquire else shapeOf f.bodyShape,
     stale := { recheck := f.rechecksObjectUnderGuard.isYes } }
 
 def findings (c : Cfg) : List String :=
@@ -307,6 +325,7 @@ def classify (f : Facts) : Verdict :=
   if f.bodyShape = .unknown then .undetermined "bodies.shape" else
   if f.createSingleFlight ≠ .yes then .undetermined "create.singleFlight: no theorem without the in-flight tracker" else
   if f.rechecksObjectUnderGuard = .unknown then .undetermined "increment.rechecksObjectUnderGuard" else
+  if f.setTestsExistenceUnderGuard = .unknown then .undetermined "set.testsExistenceUnderGuard" else
   match findings (cfgOf f) with
   | [] => if f.resetsIdOnEmpty = .no then .holds
           else .undetermined "no theorem covers guard ID reuse without the in-save release"
@@ -353,11 +372,12 @@ theorem classify_sound (f : Facts) : (classify f).Sound (Holds (cfgOf f)) (Holds
   split; · trivial
   split; · trivial
   split; · trivial
+  split; · trivial
   split
   · rename_i hf
     split
     · rename_i hres
-      rename_i hu1 hu2 hu3 hu4 hu5
+      rename_i hu1 hu2 hu3 hu4 hu5 hu6
       -- no findings: guarded bodies, re-check present; IDs never reused
       have hsh : (cfgOf f).shape = .guarded := by
         cases hs : (cfgOf f).shape <;> simp [findings, hs] at hf ⊢
